@@ -42,6 +42,8 @@ def gen_case(rng, thorough):
         elif r < 0.25: b["long"] = "L" * 1100
         elif r < 0.35: b["rule"] = rng.choice(["notarule", "x"])  # a plain fact with a string under "rule"
     ops = []
+    versions = list(base)          # every version of every fact written so far: searches are also derived from OLD versions,
+                                   # so that terms which only a replaced or removed version had are searched for
     for _ in range(n):
         r = rng.random()
         d = rng.choice(base)
@@ -49,6 +51,11 @@ def gen_case(rng, thorough):
             f = dict(d)
             if rng.random() < 0.4:
                 f[rng.choice(gen.KEYS)] = gen.scalar(rng)
+            if rng.random() < 0.25 and f:
+                f.pop(rng.choice(list(f.keys())))        # an overwrite that drops a key (and its terms)
+            if rng.random() < 0.12:
+                f["ttl"] = rng.choice([100000, "1000m"])  # stored as an absolute `expires`, which is a searchable property like any other
+            versions.append(dict(f))
             if rng.random() < 0.1:
                 f = {"id": rng.choice(FIDS), "!" + rng.choice(["p", "q"]): gen.scalar(rng)}   # property fact
             ops.append({"op": "addFact", "id": rng.choice(FIDS + ["", ""]), "fact": f})
@@ -57,7 +64,8 @@ def gen_case(rng, thorough):
         elif r < 0.60:
             ops.append({"op": "getFact", "id": rng.choice(FIDS + ["!f1.p", "!f2.q", "nope"])})
         elif r < 0.97:
-            src = d if rng.random() < 0.8 else rng.choice(base)
+            src = d if rng.random() < 0.5 else rng.choice(versions)
+            if rng.random() < 0.08: src = dict(src, expires="?when")     # facts written with a ttl have the property `expires`
             p = gen.pattern_from(rng, src, allow_anon=rng.random() < 0.3, repeat_prob=0.0, allow_optional=rng.random() < 0.06,
                                  allow_propvar=rng.random() < 0.05, drop_prob=rng.choice([0.2, 0.5, 0.8]))
             if rng.random() < 0.05: p = {}
